@@ -191,7 +191,7 @@ def registered(ecu, e):
     return exists(lambda p: ecu._timer_events[p] == e, 0, len(ecu._timer_events))
 
 
-@unit("j1939.electronic_control_unit:ElectronicControlUnit._async_job_thread", props=["C12", "C07"])
+@unit("j1939.electronic_control_unit:ElectronicControlUnit._async_job_thread", props=["C12", "C07", "C16"])
 def _(self: "ElectronicControlUnit"):
     requires(inv_ecu(self))
     opaque("J1939_21.async_job_thread")
